@@ -1,4 +1,5 @@
 """C08 Reordering"""
+import etaut
 import eevent
 import esort
 import ewho
@@ -47,5 +48,10 @@ def run(ctx):
                 "post_gc) and bumps the gc epoch on every path (caches keyed on it must not survive a reordering).")
     eevent.check_manager(ctx, F, "oxidd_manager_index")
     eevent.check_manager(ctx, F, "oxidd_manager_pointer")
+    ctx.explain("E-TAUT: ZBDDCache::tautology(level) returns the chain entry covering exactly the levels from `level` down "
+                "(Base beyond the last level); post_reorder_mut (run on init, add_vars and after reordering) starts the chain "
+                "with Base, walks the levels bottom-up and appends node(level; prev, prev) per level, then stores the chain.")
+    n = etaut.run(ctx, F)
+    ctx.floor("E-TAUT", "lookup / build situations", n, 8)
     ctx.not_decided = ("that functions are preserved, that the requested order is reached with minimal swaps, "
                        "non-overlap of concurrent swaps (runtime indices)")
